@@ -250,10 +250,12 @@ func rulesC20(c *Ctx) {
 	c.Floor("C20.FORWARD", 60)
 	ruleC20Leaf(c, nts)
 	ruleNeverWritten(c, "C20.TRANSFORM", nts)
+	ruleChildNotDropped(c, "C20.CHILDKEPT", nts)
 	ruleSubQueryWhole(c, "C20.SUBQUERYWHOLE")
 	ruleC20Validator(c)
 	ruleC20SetNames(c)
 	ruleC20SortSource(c)
+	ruleScopePush(c, "C20.SCOPE", "ast")
 }
 
 // ruleC20SortSource: the sort fields a query is evaluated with are the ones validation sees.  Accept
